@@ -1181,7 +1181,10 @@ ZDICTLIB_STATIC_API size_t ZDICT_optimizeTrainFromBuffer_cover(
   const unsigned kMinD = parameters->d == 0 ? 6 : parameters->d;
   const unsigned kMaxD = parameters->d == 0 ? 8 : parameters->d;
   const unsigned kMinK = parameters->k == 0 ? 50 : parameters->k;
-  const unsigned kMaxK = parameters->k == 0 ? 2000 : parameters->k;
+  const unsigned kMaxKRequested = parameters->k == 0 ? 2000 : parameters->k;
+  /* segments larger than the dictionary are refused for every candidate anyway ;
+   * capping here keeps `k += kStepSize` below from wrapping around for k close to 2^32 */
+  const unsigned kMaxK = (kMaxKRequested > dictBufferCapacity) ? (unsigned)dictBufferCapacity : kMaxKRequested;
   const unsigned kSteps = parameters->steps == 0 ? 40 : parameters->steps;
   const unsigned kStepSize = MAX((kMaxK - kMinK) / kSteps, 1);
   const unsigned kIterations =
